@@ -18,8 +18,8 @@ Environment steps (`Op`): the network delivers the pending RPC, drops it, loses 
 RPC issued before (duplicate after a retry or a leader change); the client gives up and is
 restarted with the same versions (client retry); a resolver (any other client that ran into a
 lock) calls `CheckTxnStatus` on the primary with any current ts and `ResolveLock` on any of the
-transaction's keys with what it learned; any other transaction (another start ts) may prewrite
-any of the keys at any point (`foreign`) and be rolled back on it (`foreignAbort`).
+transaction's keys with what it learned; any OTHER transaction of any other client sends any of the
+five write-path requests on any key at any point (`other`).
 -/
 import NoKVModel.Client.Perc
 
@@ -103,14 +103,50 @@ structure Sys where
 
 def maxRetries : Nat := 3
 
+/-- One request of ANOTHER transaction (another client, whatever it is doing) on one key.  A
+multi-key request is the sequence of its per-key parts (`Prewrite` attempts every mutation,
+`Commit`/`ResolveLock` stop at the first key error: a prefix of the per-key parts). -/
+inductive FReq where
+  | prewrite (m : Mut) (fts ttl : Nat)
+  | commit (k fts fcv : Nat)
+  | resolve (k fts fcv : Nat)
+  | check (k fts cur : Nat)
+  | rollback (k fts : Nat)
+  deriving DecidableEq, Repr
+
+def FReq.key : FReq → Nat
+  | .prewrite m _ _ => m.key
+  | .commit k _ _ => k
+  | .resolve k _ _ => k
+  | .check k _ _ => k
+  | .rollback k _ => k
+
+def FReq.apply (pc : PercCfg) (ks : KeyState) : FReq → KeyState
+  | .prewrite m fts ttl => if (prewriteKey fts ttl m ks).2 = .ok then (prewriteKey fts ttl m ks).1 else ks
+  | .commit _ fts fcv => (commitReqKey pc fts fcv ks).1
+  | .resolve _ fts fcv => (resolveKey fts fcv ks).1
+  | .check _ fts cur => (checkTxnStatus fts cur ks).1
+  | .rollback _ fts => rollbackKey ks fts
+
+/-- timestamps are unique (a TSO hands every value out once): another transaction's start ts
+and commit ts are neither our start ts `S` nor our commit version `CV` -/
+def FReq.Distinct (S CV : Nat) : FReq → Prop
+  | .prewrite _ fts _ => fts ≠ S ∧ fts ≠ CV
+  | .commit _ fts fcv => fts ≠ S ∧ fts ≠ CV ∧ fcv ≠ S ∧ fcv ≠ CV
+  | .resolve _ fts fcv => fts ≠ S ∧ fts ≠ CV ∧ fcv ≠ S ∧ fcv ≠ CV
+  | .check _ fts _ => fts ≠ S ∧ fts ≠ CV
+  | .rollback _ fts => fts ≠ S ∧ fts ≠ CV
+
+instance FReq.decDistinct (S CV : Nat) (r : FReq) : Decidable (r.Distinct S CV) := by
+  cases r <;> simp only [FReq.Distinct] <;> exact inferInstance
+
 inductive Op where
   | deliver | drop | lose | notLeader
   | redeliver (i : Nat)
   | restart
   | check (cur : Nat)
   | resolve (ks : List Nat)
-  | foreign (k fts ttl v : Nat)
-  | foreignAbort (k fts : Nat)
+  | other (r : FReq)
   deriving DecidableEq, Repr
 
 def execRpc (c : ClientCfg) (t : Txn) (rpc : Rpc) (s : Store) : Store × Bool :=
@@ -122,21 +158,6 @@ def execRpc (c : ClientCfg) (t : Txn) (rpc : Rpc) (s : Store) : Store × Bool :=
     client that ignores the error of the first commit RPC) -/
 def proceeds (c : ClientCfg) (t : Txn) (pc : Nat) (ok : Bool) : Bool :=
   ok || (!c.primaryCommitErrStops && decide (pc = t.ip))
-
-/-- another transaction (start ts `fts` ≠ ours) prewrites a put on one of our keys -/
-def foreignPrewrite (t : Txn) (s : Store) (k fts ttl v : Nat) : Store :=
-  if fts = t.start then s
-  else if t.muts.any (fun m => m.key = k) then
-    (if (prewriteKey fts ttl ⟨k, .put, v⟩ (s k)).2 = .ok then s.set k (prewriteKey fts ttl ⟨k, .put, v⟩ (s k)).1 else s)
-  else s
-
-/-- that other transaction is rolled back on the key (`BatchRollback`); timestamps are unique, so
-    `fts` is neither our start ts nor our commit version -/
-def foreignAbort (t : Txn) (s : Store) (k fts : Nat) : Store :=
-  if fts = t.start then s
-  else if fts = t.cv then s
-  else if t.muts.any (fun m => m.key = k) then s.set k (rollbackKey (s k) fts)
-  else s
 
 def step (c : ClientCfg) (t : Txn) (y : Sys) (op : Op) : Sys :=
   match op with
@@ -182,8 +203,15 @@ def step (c : ClientCfg) (t : Txn) (y : Sys) (op : Op) : Sys :=
       if cv = 0 then y else { y with store := (resolveLock t.start cv (t.ownKeys ks) y.store).1 }
     | some .rolledBack => { y with store := (resolveLock t.start 0 (t.ownKeys ks) y.store).1 }
     | _ => y
-  | .foreign k fts ttl v => { y with store := foreignPrewrite t y.store k fts ttl v }
-  | .foreignAbort k fts => { y with store := foreignAbort t y.store k fts }
+  | .other r => { y with store := y.store.set r.key (r.apply c.perc (y.store r.key)) }
+
+/-- the steps of other transactions respect timestamp uniqueness -/
+def Op.Distinct (t : Txn) : Op → Prop
+  | .other r => r.Distinct t.start t.cv
+  | _ => True
+
+instance Op.decDistinct (t : Txn) (op : Op) : Decidable (op.Distinct t) := by
+  cases op <;> simp only [Op.Distinct] <;> exact inferInstance
 
 def run (c : ClientCfg) (t : Txn) (y : Sys) (ops : List Op) : Sys := ops.foldl (step c t) y
 
